@@ -87,12 +87,38 @@ func (d *dagStoreImpl) UpdateSpec(name string, spec []byte) error {
 	if !exists(loc) {
 		return fmt.Errorf("%w: %s", errDOGFileNotExist, loc)
 	}
-	err = os.WriteFile(loc, spec, defaultPerm)
-	if err != nil {
+	if err := writeFileAtomic(loc, spec, defaultPerm); err != nil {
 		return err
 	}
 	d.metaCache.Invalidate(loc)
 	return nil
+}
+
+// writeFileAtomic replaces file with data in one step: the data is written to
+// a temporary file in the same directory which is then renamed over file, so
+// that a crash at any point leaves either the complete old or the complete
+// new content behind.
+func writeFileAtomic(file string, data []byte, perm os.FileMode) error {
+	tmp, err := os.CreateTemp(filepath.Dir(file), ".tmp-"+filepath.Base(file)+"-*")
+	if err != nil {
+		return err
+	}
+	defer os.Remove(tmp.Name())
+	if _, err := tmp.Write(data); err != nil {
+		_ = tmp.Close()
+		return err
+	}
+	if err := tmp.Sync(); err != nil {
+		_ = tmp.Close()
+		return err
+	}
+	if err := tmp.Close(); err != nil {
+		return err
+	}
+	if err := os.Chmod(tmp.Name(), perm); err != nil {
+		return err
+	}
+	return os.Rename(tmp.Name(), file)
 }
 
 var errDAGFileAlreadyExists = errors.New("the DAG file already exists")
